@@ -24,6 +24,12 @@ import (
 )
 
 func newProcessor(inSchema, outSchema record.Schemas, exprOpt []hybridqp.ExprOptions) (CoProcessor, bool, bool) {
+	return newProcessorWithOrder(inSchema, outSchema, exprOpt, true)
+}
+
+// newProcessorWithOrder: the first/last reducers are positional ("designed in ascending order"). When the rows
+// arrive in descending time order the oldest row is the last one of a window, so the two routines change places.
+func newProcessorWithOrder(inSchema, outSchema record.Schemas, exprOpt []hybridqp.ExprOptions, ascending bool) (CoProcessor, bool, bool) {
 	var (
 		initColMata bool
 		callCount   int
@@ -58,11 +64,12 @@ func newProcessor(inSchema, outSchema record.Schemas, exprOpt []hybridqp.ExprOpt
 				coProcessor.AppendRoutine(newCountRoutineImpl(inSchema, outSchema, exprOpt[i], auxProcessors))
 			case "sum":
 				coProcessor.AppendRoutine(newSumRoutineImpl(inSchema, outSchema, exprOpt[i], auxProcessors))
-			case "first":
-				coProcessor.AppendRoutine(newFirstRoutineImpl(inSchema, outSchema, exprOpt[i], auxProcessors))
-				initColMata = true
-			case "last":
-				coProcessor.AppendRoutine(newLastRoutineImpl(inSchema, outSchema, exprOpt[i], auxProcessors))
+			case "first", "last":
+				if (name == "first") == ascending {
+					coProcessor.AppendRoutine(newFirstRoutineImpl(inSchema, outSchema, exprOpt[i], auxProcessors))
+				} else {
+					coProcessor.AppendRoutine(newLastRoutineImpl(inSchema, outSchema, exprOpt[i], auxProcessors))
+				}
 				initColMata = true
 			case "min":
 				coProcessor.AppendRoutine(newMinRoutineImpl(inSchema, outSchema, exprOpt[i], auxProcessors))
